@@ -483,7 +483,16 @@ func buildEntries(o *engine.Outcome, op *engine.Op) []*entry {
 		ms := uint64(sec*1000 + ns/1e6)
 		l, err := lease.NewLease(data.Hash{1}, 7, time.Unix(sec, ns))
 		if err != nil || l == nil {
-			o.Violate("C15/exact/Lease/constructed/NewLease-rejects", "NewLease(%d s,%d ns) returned %v", sec, ns, err)
+			// The property fixes what a constructor stores when it accepts, and that
+			// it refuses what does not fit; it does not oblige it to accept every
+			// value at the edge of the range (a zero / "undefined" date, the last
+			// representable instant). A refusal well inside the range is another
+			// matter: no reading of "its range" covers that.
+			if ms >= 1000 && ms < 1<<62 {
+				o.Violate("C15/exact/Lease/constructed/NewLease-rejects-well-inside-the-range", "NewLease(%d s,%d ns) returned %v", sec, ns, err)
+			} else {
+				o.Probe("constructor_refuses_at_the_edge_of_the_range:NewLease")
+			}
 			return nil
 		}
 		return []*entry{leaseEntry(*l, ms, "Lease/constructed")}
@@ -514,7 +523,11 @@ func buildEntries(o *engine.Outcome, op *engine.Op) []*entry {
 			return nil
 		}
 		if err != nil || l == nil {
-			o.Violate("C15/NewLease2-rejects-in-range", "NewLease2(unix=%d) returned %v", sec, err)
+			if sec >= 1 && sec <= 1<<32-2 {
+				o.Violate("C15/NewLease2-rejects-well-inside-the-range", "NewLease2(unix=%d) returned %v", sec, err)
+			} else {
+				o.Probe("constructor_refuses_at_the_edge_of_the_range:NewLease2")
+			}
 			return nil
 		}
 		return []*entry{lease2Entry(*l, uint64(sec), "Lease2/constructed")}
@@ -687,7 +700,11 @@ func buildEntries(o *engine.Outcome, op *engine.Op) []*entry {
 			}
 		}
 		if err != nil || d == nil {
-			o.Violate("C15/exact/Date/"+op.Struct+"-rejects", "%s(%d,%d,%d) returned %v", op.Struct, sec, ns, ms, err)
+			if want >= 1000 && want < 1<<62 {
+				o.Violate("C15/exact/Date/"+op.Struct+"-rejects-well-inside-the-range", "%s(%d,%d,%d) returned %v", op.Struct, sec, ns, ms, err)
+			} else {
+				o.Probe("constructor_refuses_at_the_edge_of_the_range:" + op.Struct)
+			}
 			return nil
 		}
 		dd := *d
